@@ -73,7 +73,35 @@ func c05StartRunner(cfg verifh.Cfg) (func(op []string) string, func()) {
 	n := cfg.Int("n", 1)
 	rp := NewTaskRunner(n)
 	base := runtime.NumGoroutine()
-	var running []*c05Gate // tasks admitted and blocked on their gate, oldest first
+	wgLeaked := false
+	stuckWaits := 0 // Wait calls of this section that never returned (their goroutines stay)
+	var running []*c05Gate
+	closed := func(ch chan struct{}) func() bool {
+		return func() bool {
+			select {
+			case <-ch:
+				return true
+			default:
+				return false
+			}
+		}
+	}
+	// waitIdle calls rp.Wait when the harness knows that `expect` task goroutines may still be alive: once the
+	// goroutine count is back at its base every task goroutine is gone and Wait has nothing left to wait for —
+	// a Wait that has not returned shortly after is stuck (no long timeout needed).
+	waitIdle := func() bool {
+		done := make(chan struct{})
+		go func() { rp.Wait(); close(done) }()
+		c5.WaitUntil(20*time.Second, func() bool {
+			return closed(done)() || runtime.NumGoroutine() <= base+1+stuckWaits
+		})
+		if c5.WaitUntil(300*time.Millisecond, closed(done)) {
+			return true
+		}
+		stuckWaits++
+		wgLeaked = true
+		return false
+	} // tasks admitted and blocked on their gate, oldest first
 	newTask := func() (*c05Gate, func()) {
 		g := &c05Gate{ch: make(chan bool), done: make(chan struct{})}
 		return g, func() {
@@ -177,15 +205,28 @@ func c05StartRunner(cfg verifh.Cfg) (func(op []string) string, func()) {
 		case "wait":
 			// TaskRunner.Wait: returns at once when nothing is running (also after refused
 			// ScheduleImmediately calls); blocks while tasks run and returns when the last one has ended
+			if wgLeaked {
+				return "stuck" // seen before in this section: the count never comes back
+			}
 			done := make(chan struct{})
-			go func() { rp.Wait(); close(done) }()
-			if len(running) == 0 {
+			isDone := func() bool {
 				select {
 				case <-done:
-					return "returns"
-				case <-time.After(3 * time.Second):
-					return "stuck"
+					return true
+				default:
+					return false
 				}
+			}
+			go func() { rp.Wait(); close(done) }()
+			if len(running) == 0 {
+				// every task goroutine is gone once the goroutine count is back at base (+ the Wait call):
+				// from then on Wait has nothing left to wait for
+				c5.WaitUntil(5*time.Second, func() bool { return isDone() || runtime.NumGoroutine() <= base+1 })
+				if c5.WaitUntil(300*time.Millisecond, isDone) {
+					return "returns"
+				}
+				wgLeaked = true
+				return "stuck"
 			}
 			select {
 			case <-done:
@@ -205,12 +246,12 @@ func c05StartRunner(cfg verifh.Cfg) (func(op []string) string, func()) {
 			if res := finish(false); res != "ok" {
 				return res
 			}
-			select {
-			case <-done:
+			c5.WaitUntil(5*time.Second, func() bool { return isDone() || runtime.NumGoroutine() <= base+1 })
+			if c5.WaitUntil(300*time.Millisecond, isDone) {
 				return "blocked"
-			case <-time.After(3 * time.Second):
-				return "stuck"
 			}
+			wgLeaked = true
+			return "stuck"
 		case "probe":
 			return fmt.Sprintf("free=%d", probe())
 		case "run":
@@ -241,7 +282,7 @@ func c05StartRunner(cfg verifh.Cfg) (func(op []string) string, func()) {
 			if !c5.Watchdog(c5.StuckAfter, wg.Wait) {
 				return "stuck"
 			}
-			if !c5.Watchdog(5*time.Second, rp.Wait) {
+			if !waitIdle() {
 				return "stuck wait"
 			}
 			// Wait returned: no task may still be inside its body
@@ -261,7 +302,9 @@ func c05StartRunner(cfg verifh.Cfg) (func(op []string) string, func()) {
 		for len(running) > 0 {
 			finish(false)
 		}
-		c5.Watchdog(time.Second, rp.Wait)
+		if !wgLeaked {
+			waitIdle()
+		}
 	}
 }
 
@@ -286,7 +329,7 @@ func c05StartWorkerGroup(cfg verifh.Cfg) (func(op []string) string, func()) {
 			c5.Inside(h, ga, verifh.NewRng(uint64(p.Int("rs", 1))*1000003+uint64(tid)), -1, tid, pan)
 		}
 		if p.Str("api", "workergroup") == "workergroup" {
-			if !c5.Watchdog(c5.StuckAfter, NewWorkerGroup(job, n).Start) {
+			if !c5.WatchdogProgress(h, c5.StuckIdle, c5.StuckAfter, NewWorkerGroup(job, n).Start) {
 				return "stuck"
 			}
 		} else {
@@ -299,7 +342,7 @@ func c05StartWorkerGroup(cfg verifh.Cfg) (func(op []string) string, func()) {
 					g.RunSafe(job)
 				}
 			}
-			if !c5.Watchdog(c5.StuckAfter, g.Wait) {
+			if !c5.WatchdogProgress(h, c5.StuckIdle, c5.StuckAfter, g.Wait) {
 				return "stuck"
 			}
 		}
